@@ -49,7 +49,8 @@ package v0
 //   chain        1 = the world's chain id, 2 = "c13-other"
 //   block id b   0 = BlockID{}, 1..L = the j-th canonical block, 100+j = a valid block of the
 //                j-th height that nobody committed (other txs), 300+j = canonical block j with a
-//                wrong AppHash (fails ValidateBlock), 200+x = a block id nobody has
+//                wrong AppHash (fails ValidateBlock), 200+x = a block id nobody has, 400+j = the
+//                hash of canonical block j with a part-set header that is not its own
 //   timestamp t  c13Base + t seconds
 //   peer p       1, 2, ... in the order they connect
 
@@ -258,6 +259,11 @@ func c13BuildWorld(powers []int64, ih int64, upds ...c13Upd) *c13World {
 		w.bids[j] = bid
 		w.bids[100+j] = c13IDOf(w.alt[j])
 		w.bids[300+j] = c13IDOf(w.bad[j])
+		fp := make([]byte, 32)
+		for i := range fp {
+			fp[i] = byte(0xa0+j) ^ byte(7*i)
+		}
+		w.bids[400+j] = types.BlockID{Hash: bid.Hash, PartSetHeader: types.PartSetHeader{Total: parts.Header().Total, Hash: fp}}
 		state, _, err = ex.blockExec.ApplyBlock(state, bid, blk)
 		if err != nil {
 			panic(err)
@@ -279,6 +285,17 @@ func c13BuildWorld(powers []int64, ih int64, upds ...c13Upd) *c13World {
 		w.bids[200+x] = types.BlockID{Hash: hh, PartSetHeader: types.PartSetHeader{Total: 1, Hash: hh}}
 	}
 	return w
+}
+
+// idOf: the number of a whole BlockID (hash and part-set header) in the world's table; 999 = none
+func (w *c13World) idOf(b types.BlockID) int64 {
+	x := int64(999)
+	for idn, bid := range w.bids {
+		if bid.Equals(b) && idn < x {
+			x = idn
+		}
+	}
+	return x
 }
 
 func c13IDOf(b *types.Block) types.BlockID {
@@ -466,6 +483,7 @@ var c13CommitKinds = []string{
 	"garbage-late-nil", "other-key", "commit-other-block", "sigs-other-block", "sigs-other-round",
 	"sigs-other-chain", "commit-other-height", "short", "padded", "foreign-addr", "neighbour-addr",
 	"swap", "late-nil-flag-block-sig", "ts-mismatch", "late-absent-to-garbage-nil", "empty-addr-late",
+	"commit-other-partset",
 }
 
 // mutate builds the commit of the given kind for block id fid at the fj-th height.
@@ -552,6 +570,10 @@ func (w *c13World) mutate(kind string, fj, fid int64, r *vg.Rand) *c13Commit {
 	case "empty-addr-late":
 		// cannot travel (CommitSig.ValidateBasic wants 20 bytes): use a foreign one instead
 		c.slots[late].addr = 1001
+	case "commit-other-partset":
+		// everybody signs (hash of the canonical block, a part-set header that is not the
+		// block's): the commit covers the hash only
+		c.cb, c.bb = 400+fj, 400+fj
 	}
 	return c
 }
@@ -1022,7 +1044,7 @@ func c13GenStep(k int, r *vg.Rand) c13StepCase {
 	sc.fh = 1 + int64(r.Intn(4))
 	sc.same = r.Intn(5) == 0
 	// directed regression cases first (F7 classes and the address class), then the cycle
-	directed := []string{"garbage-late-nil", "garbage-late-commit", "late-nil-flag-block-sig", "late-absent-to-garbage-nil", "foreign-addr", "genuine"}
+	directed := []string{"garbage-late-nil", "garbage-late-commit", "late-nil-flag-block-sig", "late-absent-to-garbage-nil", "foreign-addr", "genuine", "commit-other-partset"}
 	sc.firstKind = "canon"
 	switch {
 	case k < len(directed)*len(ws):
@@ -1086,7 +1108,7 @@ func (sc c13StepCase) first() (*types.Block, int64) {
 func TestVerifC13Step(t *testing.T) {
 	cs := vg.NewCases("C13", "c13_step", "TM.C13.Exec")
 	root := vg.NewRand(vg.Seed())
-	n := vg.Scale(180, 3000)
+	n := vg.Scale(210, 3000)
 	for k := 0; k < n; k++ {
 		id := cs.NextID()
 		if !cs.Want(id) {
@@ -1157,6 +1179,20 @@ func TestVerifC13Step(t *testing.T) {
 				storedOK = true
 			}
 		}
+		// the whole BlockID (hash + part-set header) of what was stored for first.Height: block
+		// meta, seen commit, and the LastBlockID of the state saved after executing it (-1 = none)
+		mid, sid, lid := int64(-1), int64(-1), int64(-1)
+		if saved {
+			if m := node.ex.blockStore.LoadBlockMeta(fh); m != nil {
+				mid = w.idOf(m.BlockID)
+			}
+			if c := node.ex.blockStore.LoadSeenCommit(fh); c != nil {
+				sid = w.idOf(c.BlockID)
+			}
+			if st, err := node.ex.stateStore.Load(); err == nil && st.LastBlockHeight == fh {
+				lid = w.idOf(st.LastBlockID)
+			}
+		}
 		ph, _, _ := node.bcR.pool.GetStatus()
 		stopped := node.stopped()
 		r1p, r1b := node.reqView(fh)
@@ -1182,12 +1218,13 @@ func TestVerifC13Step(t *testing.T) {
 			vg.Tup(c13Rest(lc, lg, ln), c13Rest(fc, fg, fn), vg.N(ctv)),
 			vg.Tup(vg.B(saved && storedOK), vg.Z(ph), vg.ZL(stopped), vg.Tup(vg.Z(r1p), vg.B(r1b)),
 				vg.Tup(vg.Z(r2p), vg.B(r2b)), vg.N(ho)),
-			vg.Tup(vg.Z(w.ih), vg.N(hob.sres), vg.Z(hob.height), vg.N(hob.lcc)))
+			vg.Tup(vg.Z(w.ih), vg.N(hob.sres), vg.Z(hob.height), vg.N(hob.lcc)),
+			vg.Tup(vg.Z(mid), vg.Z(sid), vg.Z(lid)))
 		descr := fmt.Sprintf("world %d (%v, chain %q, InitialHeight %d), node has applied the first %d blocks (State.LastBlockHeight %d). Peer %d answers the request for height %d with the %s block (id %d, ValidateBlock ok=%v); peer %d answers the request for height %d with a block whose LastCommit is [%s] %s. "+
-			"Direct calls on that commit: VerifyCommitLight class %d, VerifyCommit class %d, CommitToVoteSet %d (0 ok,1 no +2/3,2 panic). Observed: block stored=%v, pool.height=%d, peers stopped=%v, requester[%d]=(peer %d, block %v), requester[%d]=(peer %d, block %v); "+
+			"Direct calls on that commit: VerifyCommitLight class %d, VerifyCommit class %d, CommitToVoteSet %d (0 ok,1 no +2/3,2 panic). Observed: block stored=%v (whole block ids: block meta %d, seen commit %d, State.LastBlockID %d; -1 none, 999 unknown), pool.height=%d, peers stopped=%v, requester[%d]=(peer %d, block %v), requester[%d]=(peer %d, block %v); "+
 			"consensus Reactor.SwitchToConsensus(state after the step, true) on the consensus state built at node start=%d (0 returned,1 panicked,2 not run,3 NewState at start panicked) %q, consensus height afterwards %d, LastCommit class %d (0 nil,1 = stored seen commit,2 other,3 n/a); consensus.NewState on the result=%d (0 ok,1 panic,2 not run)",
 			sc.wi, w, c13Chain, w.ih, sc.fh-1, w.lastH(sc.fh-1), p1.num, fh, sc.firstKind, fid, vok, p2.num, fh+1, sc.commitKind, sc.c.descr(),
-			lc, fc, ctv, saved && storedOK, ph, stopped, fh, r1p, r1b, fh+1, r2p, r2b, hob.sres, hob.msg, hob.height, hob.lcc, ho)
+			lc, fc, ctv, saved && storedOK, mid, sid, lid, ph, stopped, fh, r1p, r1b, fh+1, r2p, r2b, hob.sres, hob.msg, hob.height, hob.lcc, ho)
 		cs.Add(id, "step:"+sc.firstKind+":"+strings.SplitN(sc.commitKind, "/", 2)[0], sc.commitKind != "genuine", term, descr)
 	}
 	if err := cs.Write(); err != nil {
@@ -1210,7 +1247,13 @@ func c13Proto(b *types.Block) *tmproto.Block {
 // with a LastCommit whose last slot is a nil vote with a garbage signature (the rest genuine:
 // F7); 4 answers every request with a block 150 heights ahead; 5 sends every block twice; 6
 // serves the block at its own announced top with a LastCommit in which one slot carries a
-// foreign address (all signatures genuine: known class 31).
+// foreign address (all signatures genuine: known class 31); 7 serves the block at its own announced
+// top with a LastCommit in which everybody signed (hash of the canonical block, a part-set header
+// that is not the block's); 8..13 answer their own requests honestly and PUSH an unsolicited
+// BlockResponse for every height the node requests from another peer — 8/9/10 just before that
+// peer answers, 11/12/13 just after — carrying the genuine block (8, 11), the never-committed alt
+// block (9, 12) or a block with a garbage signature in its LastCommit (10, 13): AddBlock must
+// refuse it and report the pusher ("invalid peer"), which gets it stopped.
 // base, height, start, tip are positions j in the world's chain (height ih+j-1).
 type c13PeerSpec struct {
 	script       uint64
@@ -1225,7 +1268,8 @@ type c13Scen struct {
 	peers []c13PeerSpec
 }
 
-var c13ScriptNames = []string{"honest", "alt-block", "forged-commit", "padded-tip-commit", "far-height", "twice", "foreign-address-tip-commit"}
+var c13ScriptNames = []string{"honest", "alt-block", "forged-commit", "padded-tip-commit", "far-height", "twice", "foreign-address-tip-commit",
+	"other-partset-tip-commit", "push-genuine-before", "push-alt-before", "push-forged-before", "push-genuine-after", "push-alt-after", "push-forged-after"}
 
 func c13Scenarios(r *vg.Rand, n int) []c13Scen {
 	L := c13L
@@ -1239,6 +1283,13 @@ func c13Scenarios(r *vg.Rand, n int) []c13Scen {
 		{"twice", 0, 1, L, []c13PeerSpec{{5, 1, L}, {0, 1, L}, {0, 1, L}}},
 		{"mix-from-2", 1, 2, L, []c13PeerSpec{{1, 1, 4}, {2, 3, L}, {0, 1, L}, {0, 1, L}, {0, 1, L}}},
 		{"forged-commit-second-only", 2, 0, L, []c13PeerSpec{{2, 3, 3}, {0, 1, 2}, {0, 1, 2}, {0, 1, L}}},
+		{"other-partset-tip-commit", 0, 0, L - 1, []c13PeerSpec{{0, 1, L - 1}, {0, 1, L - 1}, {7, L, L}}},
+		{"push-genuine-before", 1, 0, L, []c13PeerSpec{{8, 1, L}, {0, 1, L}, {0, 1, L}}},
+		{"push-alt-before", 2, 0, L, []c13PeerSpec{{9, 1, L}, {0, 1, L}, {0, 1, L}}},
+		{"push-forged-before", 0, 1, L, []c13PeerSpec{{10, 1, L}, {0, 1, L}, {0, 1, L}}},
+		{"push-genuine-after", 1, 0, L, []c13PeerSpec{{11, 1, L}, {0, 1, L}, {0, 1, L}}},
+		{"push-alt-after", 2, 2, L, []c13PeerSpec{{12, 1, L}, {0, 1, L}, {0, 1, L}}},
+		{"push-forged-after", 0, 0, L, []c13PeerSpec{{13, 1, L}, {0, 1, L}, {0, 1, L}}},
 	}
 	nw := len(c13GetWorlds())
 	for len(ss) < n {
@@ -1248,7 +1299,7 @@ func c13Scenarios(r *vg.Rand, n int) []c13Scen {
 		for i := 0; i < np; i++ {
 			s := uint64(0)
 			if i < np-2 && r.Intn(3) != 0 { // liars connect first, at least two honest peers
-				s = []uint64{1, 2, 4, 5}[r.Intn(4)]
+				s = []uint64{1, 2, 4, 5, 8, 9, 10, 11, 12, 13}[r.Intn(10)]
 			}
 			sc.peers = append(sc.peers, c13PeerSpec{s, 1, L})
 		}
@@ -1286,6 +1337,9 @@ func c13HandScenarios(wi int) []c13Scen {
 		{"fresh-forged-tip2", wi, 0, 2, with(c13PeerSpec{2, 1, 2}, 2, 3)},
 		{"restart1-padded-at-3", wi, 1, 2, with(c13PeerSpec{3, 3, 3}, 2, 2)},
 		{"restart1-foreign-at-3", wi, 1, 2, with(c13PeerSpec{6, 3, 3}, 2, 2)},
+		{"fresh-otherpartset-at-3", wi, 0, 2, with(c13PeerSpec{7, 3, 3}, 2, 2)},
+		{"fresh-push-alt-tip3", wi, 0, 3, with(c13PeerSpec{9, 1, 3}, 3, 2)},
+		{"restart1-push-genuine-tip4", wi, 1, 4, with(c13PeerSpec{8, 1, 4}, 4, 2)},
 	}
 	if len(c13GetWorlds()[wi].upds) > 0 {
 		// the world changes its validator set at some of the positions 3, 4, 5: hand-overs at,
@@ -1339,7 +1393,7 @@ func c13RunScen(sc c13Scen, r *vg.Rand) *c13ScenResult {
 		}
 	}
 	used := make([]bool, len(sc.peers))
-	serve := func(rq c13Req) {
+	answer := func(rq c13Req) {
 		i := int(rq.p.num - 1)
 		ps, j := sc.peers[i], w.J(rq.height)
 		if j < 1 || j > L || !rq.p.IsRunning() {
@@ -1417,7 +1471,63 @@ func c13RunScen(sc c13Scen, r *vg.Rand) *c13ScenResult {
 			} else {
 				node.deliver(rq.p, w.blocks[j])
 			}
+		case 7:
+			if j == ps.height && j >= 2 {
+				b := w.second(j-1, w.realCommit(w.mutate("commit-other-partset", j-1, j-1, r)))
+				node.deliver(rq.p, b)
+				if accepted(b) {
+					used[i] = true
+					res.nbad++
+					res.journal = append(res.journal, fmt.Sprintf("peer %d: top block %d whose LastCommit is signed over the right hash with another part-set header", rq.p.num, rq.height))
+				}
+			} else {
+				node.deliver(rq.p, w.blocks[j])
+			}
+		default: // the pushers answer their own requests honestly
+			node.deliver(rq.p, w.blocks[j])
 		}
+	}
+	// the pushers: an unsolicited BlockResponse for the height just requested from somebody else
+	push := func(rq c13Req, after bool) {
+		j := w.J(rq.height)
+		if j < 1 || j > L {
+			return
+		}
+		for pi, ps := range sc.peers {
+			if ps.script < 8 || (ps.script >= 11) != after {
+				continue
+			}
+			pp := node.peers[pi]
+			if pp == rq.p || !pp.IsRunning() {
+				continue
+			}
+			if pn, _ := node.reqView(rq.height); pn == -1 || pn == pp.num {
+				continue // no such request (any more), or it is the pusher's own
+			}
+			b, what := w.blocks[j], "the genuine block"
+			switch (ps.script - 8) % 3 {
+			case 1:
+				b, what = w.alt[j], "the alt block"
+			case 2:
+				if j >= 2 {
+					b, what = w.second(j-1, w.realCommit(w.mutate("garbage-early", j-1, j-1, r))), "a block with a garbage signature in its LastCommit"
+				} else {
+					b, what = w.alt[j], "the alt block"
+				}
+			}
+			node.deliver(pp, b)
+			// the request still exists and is somebody else's: AddBlock saw it and must have
+			// refused and reported the pusher
+			if pn, _ := node.reqView(rq.height); pn != -1 && pn != pp.num {
+				used[pi] = true
+				res.journal = append(res.journal, fmt.Sprintf("peer %d: pushed %s for height %d (requested from peer %d)", pp.num, what, rq.height, rq.p.num))
+			}
+		}
+	}
+	serve := func(rq c13Req) {
+		push(rq, false)
+		answer(rq)
+		push(rq, true)
 	}
 	deadline := time.Now().Add(time.Duration(vg.Scale(8, 12)) * time.Second)
 	var swres *c13Switch
@@ -1457,12 +1567,13 @@ LOOP:
 	time.Sleep(20 * time.Millisecond)
 	hh := node.ex.blockStore.Height()
 	for j := int64(1); w.H(j) <= hh; j++ {
+		// the id of what is stored at this position: the whole BlockID (hash + part-set header)
+		// of the block meta, which the stored seen commit must carry too (999 otherwise)
 		m := node.ex.blockStore.LoadBlockMeta(w.H(j))
+		c := node.ex.blockStore.LoadSeenCommit(w.H(j))
 		x := int64(999)
-		for idn, bid := range w.bids {
-			if m != nil && bid.Equals(m.BlockID) {
-				x = idn
-			}
+		if m != nil && c != nil && c.BlockID.Equals(m.BlockID) {
+			x = w.idOf(m.BlockID)
 		}
 		res.stored = append(res.stored, x)
 	}
@@ -1645,12 +1756,12 @@ func c13RunAll(scens []c13Scen, root *vg.Rand, streamBase int, want func(k int) 
 func TestVerifC13Scenario(t *testing.T) {
 	cs := vg.NewCases("C13", "c13_scen", "TM.C13.Exec")
 	root := vg.NewRand(vg.Seed())
-	scens := c13Scenarios(root.Fork(999), vg.Scale(9, 120))
+	scens := c13Scenarios(root.Fork(999), vg.Scale(16, 140))
 	ids := make([]int, len(scens))
 	for k := range scens {
 		ids[k] = cs.NextID()
 	}
-	results, notes := c13RunAll(scens, root, 1000, func(k int) bool { return cs.Want(ids[k]) }, 3)
+	results, notes := c13RunAll(scens, root, 1000, func(k int) bool { return cs.Want(ids[k]) }, 6)
 	cs.Notes = append(cs.Notes, notes...)
 	if len(notes) > 0 {
 		cs.Count("scen:rerun-after-timing-dependent-shortfall", len(notes))
@@ -1692,9 +1803,9 @@ func TestVerifC13Handover(t *testing.T) {
 		sc := c13Scen{name: fmt.Sprintf("random-%d", len(scens)), wi: r.Intn(len(ws)), start: start, tip: tip}
 		switch r.Intn(4) {
 		case 0:
-			sc.peers = append(sc.peers, c13PeerSpec{[]uint64{3, 6}[r.Intn(2)], tip + 1, tip + 1})
+			sc.peers = append(sc.peers, c13PeerSpec{[]uint64{3, 6, 7}[r.Intn(3)], tip + 1, tip + 1})
 		case 1:
-			sc.peers = append(sc.peers, c13PeerSpec{[]uint64{1, 2, 5}[r.Intn(3)], 1, tip})
+			sc.peers = append(sc.peers, c13PeerSpec{[]uint64{1, 2, 5, 8, 9, 10, 12}[r.Intn(7)], 1, tip})
 		}
 		for i := 0; i < 2+r.Intn(2); i++ {
 			sc.peers = append(sc.peers, c13PeerSpec{0, 1, tip})
